@@ -161,6 +161,26 @@ def big_reopen_leg(rng, path, n=20000):
     return sc, len(ops)
 
 
+def big_listing_leg(rng, path, n=3000):
+    """C16 on a collection of thousands of documents: filtered and unfiltered pages, each requested several times
+    (a page may not depend on the run), compared with the slice specification"""
+    q, dim = 8, 2
+    ops = [{'op': 40, 'dim': dim, 'q': q, 'metric': 0, 'json': options_json(path, 0, dim, q)}]
+    for i in range(n):
+        ops.append({'op': 20, 'id': rng.choice([i * 3 + 1, 2 ** 63 + i]), 'vec': P(data=bytes([i % 251, i % 13])), 'meta': P(seed=i + 1, n=rng.choice([0, 1, 2, 5])), 'nostate': True})
+    for rep in range(3):
+        for fk, fa, fb in ((1, 3, 1), (2, 2, 0), (0, 1, 0), (1, 50, 7)):
+            for off, lim in ((0, 10), (5, 7), (100, 50), (990, 20), (0, 0), (2500, 100), (17, 1)):
+                ops.append({'op': 26, 'fk': fk, 'fa': fa, 'fb': fb, 'off': off, 'lim': lim})
+    g, rc, err = run_harness(['store', path], render(ops), timeout=900)
+    sc = spec_check(ops, g)
+    if sc is None and rc != 0:
+        sc = {'kind': 'died', 'what': 'harness exited with status %s: %s' % (rc, err[-300:])}
+    if sc:
+        sc = {k: (v if len(str(v)) < 300 else str(v)[:300] + '...') for k, v in sc.items()}
+    return sc, len(ops)
+
+
 def store_property(prop, tier, seed, histories, level_note, replay=None, snap=False):
     chk = Check(prop, tier, seed)
     build = build_all()
@@ -235,6 +255,12 @@ def store_property(prop, tier, seed, histories, level_note, replay=None, snap=Fa
         # corpus first
         for f in sorted(glob.glob(os.path.join(VERIF, 'corpus', 'store', '*.json')) + glob.glob(os.path.join(VERIF, 'corpus', prop, '*.json'))):
             handle(rebase_ops(ops_from_js(json.load(open(f))['ops']), path), 'corpus:' + os.path.basename(f))
+        if prop == 'C16':
+            sc, nb = big_listing_leg(random.Random(seed * 1000003 + 23), path)
+            stats['big_listing_ops'] = nb
+            if sc and chk.violation({'engine': 'store', 'what': sc, 'origin': 'big-listing: 3000 documents, filtered pages requested repeatedly',
+                                     'signature': 'store:big-listing:%s' % sc.get('kind')}, tag='oracle'):
+                nviol += 1
         if prop == 'C02':
             sc, nb = big_reopen_leg(random.Random(seed * 1000003 + 19), path)
             stats['big_reopen_ops'] = nb
@@ -272,7 +298,7 @@ def store_property(prop, tier, seed, histories, level_note, replay=None, snap=Fa
         'samples': samples,
         'distribution': {'op_mix': stats['op_mix'], 'reopens': stats['reopens'], 'grow_events': stats['grow_events'],
                          'error_results': stats['errors_expected'],
-                         'length_code_boundary_histories_judged_by_spec_only': stats.get('spec_only', 0), 'big_reopen_ops': stats.get('big_reopen_ops', 0)},
+                         'length_code_boundary_histories_judged_by_spec_only': stats.get('spec_only', 0), 'big_reopen_ops': stats.get('big_reopen_ops', 0), 'big_listing_ops': stats.get('big_listing_ops', 0)},
         'correspondence': 'model and implementation agree on every output line' if corr is None else 'DIVERGED',
         'proof_obligations_broken': broken,
     })
